@@ -67,6 +67,11 @@ def run(v):
     common.check_coverage(r, ["WriteRecord", "NewSession"], "MC_StatsLog")
     v.add_mc(f"MC_StatsLog/{t}", r, "all record lists within bounds over 9 character classes, any session "
              "boundaries: ReadsBack, NoRawBreakInRecord, SummaryCountsOnce")
+    # reading at the grain of the reader's buffer: the blank-line shortcut a seeded change introduced must be refuted
+    rb = common.tlc(os.path.join(SPEC, "mc", "MC_StatsLog.tla"), os.path.join(SPEC, "mc", "MC_StatsLog_dev_blank.cfg"), "c19_mc_dev",
+                    workers=2, timeout=600, coverage=False)
+    if rb.violated != "BufferedReadsBack":
+        raise common.ToolError("MC_StatsLog: the blank-line-shortcut deviation is not refuted (vacuous invariant)")
     rg = common.tlc(os.path.join(SPEC, "mc", "MC_StatsLog.tla"), os.path.join(SPEC, "mc", "MC_StatsLog_gen.cfg"),
                     "c19_gen", workers=8, coverage=False, timeout=1800)
     cases = os.path.join(wd, "cases.ndjson")
